@@ -6,8 +6,11 @@ import (
 	"io"
 	"os"
 	"os/exec"
+	"runtime"
 	"sort"
+	"strconv"
 	"strings"
+	"sync/atomic"
 	"time"
 
 	vs "verif/shim/vsync"
@@ -155,7 +158,12 @@ func shortFunc(f string) string {
 }
 
 // runOne executes the scenario once along prefix.
+// execStart is when the execution in progress began (unix nanoseconds; 0: none): the worker's watchdog reads it.
+var execStart int64
+
 func runOne(sc *Scenario, prefix []int, trace bool) *ExecReport {
+	atomic.StoreInt64(&execStart, time.Now().UnixNano())
+	defer atomic.StoreInt64(&execStart, 0)
 	x := &X{}
 	cfg := vs.Config{Prefix: prefix, MaxSteps: sc.MaxSteps, Trace: trace, AtomicPoints: sc.Atomic, NoPoison: sc.NoPoison, NoStalls: sc.NoStalls, SoloStalls: sc.SoloStalls, UnlockedWrites: sc.UnlockedWrites, UnlockPoints: sc.UnlockPoints || forceUnlock, MapRaces: sc.MapRaces || (forceMapRaces && sc.MaxSteps <= 500000)} // (vector clocks grow with the number of threads: never on the long histories)
 	if sc.MapOrder {
@@ -242,6 +250,7 @@ type Item struct {
 	Bound    Bound
 	Split    int // >0: run this node only and return its children
 	Deadline time.Time
+	Retries  int // times this item was handed out again after its worker had to be replaced
 }
 
 // FoundViolation is a violation with the choice sequence that produced it.
@@ -455,7 +464,42 @@ func processItem(it Item) *ItemResult {
 
 // ---- worker process protocol (gob over stdin/stdout)
 
+// watchdogLimit: no single execution of any scenario takes longer than a few seconds; one that has not ended
+// after this long is stuck outside the controlled scheduler (an engine problem, never a verdict).  The worker
+// writes every goroutine's stack to stderr and to a file and exits; the coordinator hands the item to a
+// fresh worker once more before it gives up with ENGINE-ERROR.
+var watchdogLimit = 120 * time.Second
+
+// watchdogExit: the exit status of a process stopped by its watchdog (vcheck.sh runs the check once more)
+const watchdogExit = 3
+
+func watchdogSetup() {
+	if v := os.Getenv("VERIF_WATCHDOG_S"); v != "" {
+		if n, err := strconv.Atoi(v); err == nil && n > 0 {
+			watchdogLimit = time.Duration(n) * time.Second
+		}
+	}
+	go workerWatchdog()
+}
+
+func workerWatchdog() {
+	for {
+		time.Sleep(5 * time.Second)
+		t0 := atomic.LoadInt64(&execStart)
+		if t0 == 0 || time.Since(time.Unix(0, t0)) < watchdogLimit {
+			continue
+		}
+		buf := make([]byte, 4<<20)
+		buf = buf[:runtime.Stack(buf, true)]
+		msg := fmt.Sprintf("mc worker %d: one execution has been running for more than %v; goroutines:\n%s\n", os.Getpid(), watchdogLimit, buf)
+		os.Stderr.WriteString(msg)
+		os.WriteFile(fmt.Sprintf("/var/tmp/mc-watchdog-%d.txt", os.Getpid()), []byte(msg), 0644)
+		os.Exit(watchdogExit)
+	}
+}
+
 func workerMain() {
+	watchdogSetup()
 	dec := gob.NewDecoder(os.Stdin)
 	enc := gob.NewEncoder(os.Stdout)
 	for {
@@ -512,6 +556,7 @@ type BoundReport struct {
 	Outcomes  int    `json:"distinct_outcomes"`
 	DistinctH int    `json:"distinct_hb"`
 	Complete  bool   `json:"complete"`
+	Restarts  int    `json:"worker_restarts,omitempty"`
 	Cases     int64  `json:"input_cases,omitempty"`
 	NShapes   int    `json:"distinct_shape_classes,omitempty"`
 	shapeset  map[string]struct{}
@@ -600,8 +645,14 @@ func (p *pool) runBound(sc *Scenario, b Bound, budget time.Duration) *BoundRepor
 		inflight--
 		if d.err != nil {
 			dead[d.w] = true
-			if br.engineErr == "" {
-				br.engineErr = fmt.Sprintf("worker died while exploring scenario %s prefix %v: %v", d.it.Scenario, d.it.Prefix, d.err)
+			p.workers[d.w].cmd.Process.Kill()
+			if d.it.Retries < 1 {
+				// (a worker stopped by its watchdog or by the system: its item goes to a fresh worker once)
+				d.it.Retries++
+				queue = append(queue, d.it)
+				br.Restarts++
+			} else if br.engineErr == "" {
+				br.engineErr = fmt.Sprintf("worker died twice while exploring scenario %s prefix %v: %v", d.it.Scenario, d.it.Prefix, d.err)
 			}
 			// replace the worker
 			if w, err := startWorker(); err == nil {
@@ -679,4 +730,21 @@ func splitFor(b Bound) int {
 		return 2
 	}
 	return 1
+}
+
+// engine self-test (only with VERIF_WATCHDOG_SELFTEST=<marker file>): the first execution blocks outside the
+// controlled scheduler; the watchdog must stop that worker and the item must succeed in a fresh one.
+func init() {
+	marker := os.Getenv("VERIF_WATCHDOG_SELFTEST")
+	if marker == "" {
+		return
+	}
+	register(&Scenario{Prop: "C07", Name: "c07/zz-watchdog-selftest", Quick: []Bound{{0, 0}}, Thorough: []Bound{{0, 0}}, MinHB: 1, Body: func(x *X) {
+		inWorker := len(os.Args) > 1 && os.Args[1] == "worker"
+		if _, err := os.Stat(marker); err != nil && inWorker == (os.Getenv("VERIF_WATCHDOG_SELFTEST_WHERE") != "coordinator") {
+			os.WriteFile(marker, []byte("x"), 0644)
+			select {}
+		}
+		x.Outcome("second attempt")
+	}})
 }
